@@ -539,9 +539,14 @@ func (w *worker) isSkippedRawKey(rawKey []byte, rev uint64) bool {
 	return false
 }
 
-func (w *worker) updateSkippedRawKey(rawKey []byte, rev uint64, err error) {
+// updateSkippedRawKey records rawKey as failed, so that no further record of it is deleted in this pass.
+// Only the compare-and-delete of an index record (mayContinue) may go on after a failed compare: it means
+// that the key has been written again, and its old versions can still be compacted. A version that could not
+// be deleted - for whatever reason, engines report a commit write conflict as ErrCASFailed too - must shield
+// the newer versions and the tombstone of its key.
+func (w *worker) updateSkippedRawKey(rawKey []byte, rev uint64, err error, mayContinue bool) {
 	klog.ErrorS(err, "compact failed", "rawKey", string(rawKey), "rev", rev)
-	if !errors.Is(err, storage.ErrCASFailed) {
+	if !mayContinue || !errors.Is(err, storage.ErrCASFailed) {
 		w.lastCompactFailedRawKey = rawKey
 	}
 }
@@ -555,7 +560,7 @@ func (w *worker) compactCurrent(iter storage.Iter, rawKey []byte, rev uint64) er
 	err := w.store.DelCurrent(context.Background(), iter)
 	if err != nil {
 		w.metricCli.EmitCounter("compact.err", 1)
-		w.updateSkippedRawKey(rawKey, rev, err)
+		w.updateSkippedRawKey(rawKey, rev, err, true)
 	}
 	return err
 }
@@ -569,7 +574,7 @@ func (w *worker) compactKey(key []byte, rawKey []byte, rev uint64) error {
 	err := w.store.Del(context.Background(), key)
 	if err != nil {
 		w.metricCli.EmitCounter("compact.err", 1)
-		w.updateSkippedRawKey(rawKey, rev, err)
+		w.updateSkippedRawKey(rawKey, rev, err, false)
 	}
 	return err
 }
